@@ -38,28 +38,29 @@ def _options(method, variant=0):
 
 
 def cases_filter_chain(methods, tier):
-    pats = ["ooo", "oCo", "Ooo", "oOC", "CoO"] if tier == "quick" else ["".join(p) for p in itertools.product("oOC", repeat=R)]
+    # per realization: o = succeeds, O = NaN in the objective only, C = NaN in the first (ranked) constraint only, D = NaN in the second constraint only
+    pats = ["ooo", "oCo", "Ooo", "oOC", "CoO", "oDo", "DoC"] if tier == "quick" else ["".join(p) for p in itertools.product("oOCD", repeat=R)]
     for method in methods:
         bks = ("upper", "lower", "equality") if method == "cvar-constraint" else ("upper",)
         for bk in bks:
             for variant in ("plain", "unused-filter-first", "second-call", "prior-instance"):
                 for pat in pats:
-                    if tier == "quick" and variant != "plain" and pat not in ("oCo", "Ooo"):
+                    if tier == "quick" and variant != "plain" and pat not in ("oCo", "Ooo", "oDo"):
                         continue
                     yield "%s/%s/%s/%s" % (method, bk, variant, pat), {"method": method, "bounds": bk, "variant": variant, "pattern": pat}
 
 
 def _build(T, ch, case, method, bk, options, tables, unused_first=False, tag=""):
-    """-> (evaluator, configured weights, rhs).  One objective, one constraint; the filter is mapped to the objective (objective
-    methods) or to the constraint (constraint methods)."""
+    """-> (evaluator, configured weights, rhs).  One objective, two constraints; the filter is mapped to the objective (objective
+    methods) or to the first constraint (constraint methods); the second constraint is never filtered nor ranked."""
     cfgw = T.real("weights" + tag, (R,), lo=0.001)
     rhs = T.real("rhs" + tag, ())
     lower = {"upper": -np.inf, "lower": rhs, "equality": rhs}[bk]
     upper = {"upper": rhs, "lower": np.inf, "equality": rhs}[bk]
     idx = 1 if unused_first else 0
     on_objective = method.endswith("objective") or method.endswith("objectives")
-    cfg = H.make_config(T, R, 1, 1, 2, weights=cfgw, ow=T.const(np.array([1.0])), omap_flt=[idx] if on_objective else None,
-                        cmap_flt=None if on_objective else [idx], min_success=1, nl_lb=T.np.array([lower]), nl_ub=T.np.array([upper]))
+    cfg = H.make_config(T, R, 1, 2, 2, weights=cfgw, ow=T.const(np.array([1.0])), omap_flt=[idx] if on_objective else None,
+                        cmap_flt=None if on_objective else [idx, -1], min_success=1, nl_lb=T.np.array([lower, -np.inf]), nl_ub=T.np.array([upper, 5.0]))
     entries = [types.SimpleNamespace(method=method, options=dict(options))]
     if unused_first:
         entries.insert(0, types.SimpleNamespace(method="sort-objective", options={"sort": [0], "first": 0, "last": 0}))
@@ -84,15 +85,15 @@ def scn_filter_chain(T, case, prefix):
         T.under_contract(ch.sh, H.CHAIN[0], "EnsembleEvaluator._init_realization_filters")
     failed = [c != "o" for c in pat]
     onan = np.array([[c == "O"] for c in pat])
-    cnan = np.array([[c == "C"] for c in pat])
-    tables = {"O": T.real("O", (R, 1), nan=onan), "C": T.real("C", (R, 1), nan=cnan)}
+    cnan = np.array([[c == "C", c == "D"] for c in pat])
+    tables = {"O": T.real("O", (R, 1), nan=onan), "C": T.real("C", (R, 2), nan=cnan)}
     options = _options(method)
     x = T.real("x", (2,))
     try:
         if variant == "prior-instance":
             # another evaluator with the same method, other options and another kind of bound, created and used first
             other = {"upper": "lower", "lower": "equality", "equality": "upper"}[bk]
-            t0 = {"O": T.real("O_prior", (R, 1)), "C": T.real("C_prior", (R, 1))}
+            t0 = {"O": T.real("O_prior", (R, 1)), "C": T.real("C_prior", (R, 2))}
             ev0, _, _ = _build(T, ch, case, method, other, _options(method, 1), t0, tag="_prior")
             ev0.calculate(T.real("x_prior", (2,)), compute_functions=True, compute_gradients=False)
         live = dict(tables)
@@ -100,7 +101,7 @@ def scn_filter_chain(T, case, prefix):
         if variant == "second-call":
             # the same evaluator has already evaluated another point where the last realization failed
             first_nan = np.array([[False], [False], [True]])
-            live["O"], live["C"] = T.real("O_first", (R, 1), nan=first_nan), T.real("C_first", (R, 1))
+            live["O"], live["C"] = T.real("O_first", (R, 1), nan=first_nan), T.real("C_first", (R, 2))
             ev.calculate(T.real("x_first", (2,)), compute_functions=True, compute_gradients=False)
             live["O"], live["C"] = tables["O"], tables["C"]
         (res,) = ev.calculate(x, compute_functions=True, compute_gradients=False)
@@ -124,11 +125,13 @@ def scn_filter_chain(T, case, prefix):
     on_objective = method.endswith("objective")
     rows = res.realizations.objective_weights if on_objective else res.realizations.constraint_weights
     other_rows = res.realizations.constraint_weights if on_objective else res.realizations.objective_weights
-    T.prove(prefix + ".chain.filtered_function_reports_its_weight_row", rows is not None and tuple(rows.shape) == (1, R))
+    T.prove(prefix + ".chain.filtered_function_reports_its_weight_row", rows is not None and tuple(rows.shape) == ((1 if on_objective else 2), R))
     if rows is None:
         return
     if other_rows is not None:
-        T.prove(prefix + ".chain.unfiltered_function_keeps_the_configured_weights", T.same(other_rows[0, :], cfgw))
+        T.prove(prefix + ".chain.unfiltered_function_keeps_the_configured_weights", T.all([T.same(other_rows[k, :], cfgw) for k in range(other_rows.shape[0])]))
+    if not on_objective:
+        T.prove(prefix + ".chain.unfiltered_function_keeps_the_configured_weights", T.same(rows[1, :], cfgw))
     w = rows[0, :]
     vals = tables["O"] if on_objective else tables["C"]
     key = [vals[r, 0] if not failed[r] else 0.0 for r in range(R)]
@@ -155,3 +158,5 @@ def scn_filter_chain(T, case, prefix):
     wantc = T.total([(zc[r] / totc) * (ovals[r, 0] if not failed[r] else 0.0) for r in range(R)])
     gotc = res.functions.constraints[0] if on_objective else res.functions.objectives[0]
     T.prove(prefix + ".chain.unfiltered_value_is_the_mean_under_the_configured_weights", T.same(gotc, wantc))
+    want2 = T.total([(zc[r] / totc) * (tables["C"][r, 1] if not failed[r] else 0.0) for r in range(R)])
+    T.prove(prefix + ".chain.unfiltered_value_is_the_mean_under_the_configured_weights", T.same(res.functions.constraints[1], want2))
